@@ -62,8 +62,8 @@ prop("C05", ["prims.go", "c01.go"],
 # ------------------------------------------------------------------------------------------------ C02
 prop("C02", ["prims.go", "c02a.go"],
      [run("core", "harnessC02a", ["common", "disjoint"], native="version", quick={"witness": 16, "bound": "host and plugin each with 2 versioned sets, versions arbitrary distinct ints; every map iteration order on both sides; PLUGIN_PROTOCOL_VERSIONS built as Start builds it"}),
-      run("composed", "harnessC02b", ["common", "disjoint", "inherited-version-list"], files=["prims.go", "m_print.go", "c02b.go"],
-          quick={"bound": "host's real Start composed with the plugin's real Serve in one run: 2 x 2 versioned sets, arbitrary distinct versions, every map order; the version list travels through the real environment construction, the real protocolVersion, the printed line and the real parser; the host's own environment is skipped, or is copied and carries a PLUGIN_PROTOCOL_VERSIONS inherited from the host's own launch (one arbitrary version)"}),
+      run("composed", "harnessC02b", ["common", "disjoint", "inherited-version-list", "plugin-legacy-pair-and-versioned"], files=["prims.go", "m_print.go", "c02b.go"],
+          quick={"bound": "host's real Start composed with the plugin's real Serve in one run: 2 x 2 versioned sets (the plugin optionally with the legacy ProtocolVersion+Plugins pair as a third version), arbitrary distinct versions, every map order; the version list travels through the real environment construction, the real protocolVersion, the printed line and the real parser; the host's own environment is skipped, or is copied and carries a PLUGIN_PROTOCOL_VERSIONS inherited from the host's own launch (one arbitrary version)"}),
       run("shared-config", "harnessSharedConfig", ["first-launch", "second-launch"], files=WORLD,
           quick={"bound": "one *ClientConfig used for two launches (RunnerFunc; net/rpc or gRPC; AutoMTLS on or off): the first plugin serves only version 1 (offered through VersionedPlugins), the second only version 2 (offered through the legacy ProtocolVersion+Plugins pair); each launch: Start, Client, Dispense, call, Kill; checked per launch: negotiated version and plugin set, client-certificate variable, size of the host's trust pool"}),
       run("general", "harnessC02n", ["common", "fallback-lowest", "host-legacy", "plugin-legacy", "no-list", "damaged-list", "host-refuses"], files=["prims.go", "c02a.go", "c02c.go"], no_map_perm=True,
@@ -207,8 +207,8 @@ YAMUX = "yamux model: a session is a pair of FIFO queues of streams; Open enqueu
 prop("C18", ["prims.go", "m_print.go", "c18.go"],
      [run("lifecycle", "harnessC18", ["mux", "no-mux"],
           quick={"bound": "plugin side, gRPC, multiplexing on/off, no brokered listeners: a whole life cycle Serve -> host connects -> controller Shutdown -> Serve returns, against the ghost file system"}),
-      run("world", "harnessC18world", ["dispensed", "host-serves", "plugin-serves", "two-plugin-servers", "host-listener-left-open", "rpc-callback", "closed-before-kill", "two-plugin-servers-one-id", "clean"], files=WORLD,
-          quick={"params": {"trace": 0}, "bound": "host x plugin composed, net/rpc, gRPC and gRPC+mux, both launch methods; history: dispense and call; optionally a brokered server on the host dialled and called by the plugin; optionally one or two brokered servers on the plugin (on two IDs, or one after the other on the same ID with the first still serving), each dialled and called by the host; optionally a host-side brokered listener still open at Kill (custom runner); then either Kill, or the protocol client closed first, three seconds (the plugin exits and the exit is recorded) and then Kill; then six seconds"})],
+      run("world", "harnessC18world", ["dispensed", "host-serves", "plugin-serves", "two-plugin-servers", "host-listener-left-open", "rpc-callback", "closed-before-kill", "two-plugin-servers-one-id", "plugin-server-factory-in-progress", "clean"], files=WORLD,
+          quick={"params": {"trace": 0}, "bound": "host x plugin composed, net/rpc, gRPC and gRPC+mux, both launch methods; history: dispense and call; optionally a brokered server on the host dialled and called by the plugin; optionally one or two brokered servers on the plugin (on two IDs, or one after the other on the same ID with the first still serving), each dialled and called by the host; optionally a brokered server on the plugin whose factory is still running when the shutdown arrives; optionally a host-side brokered listener still open at Kill (custom runner); then either Kill, or the protocol client closed first, three seconds (the plugin exits and the exit is recorded) and then Kill; then six seconds"})],
      [GHOSTFS, GRPCSEAM, YAMUX, EXIT] + WORLD_ASSUME,
      WORLD_STUBS,
      "histories with more than one brokered connection per direction; stdio traffic; goroutines inside gRPC and yamux (delegated)",
@@ -271,6 +271,8 @@ prop("C07", ["prims.go", "c07.go"],
       run("same-instant", "harnessC07same", ["host-accepts", "plugin-accepts", "routed"], dpor=True,
           quick={"max_reversals": 2, "bound": "one symbolic ID accepted and dialled at the same instant (the connection info arrives while the Dial looks its pending entry up), plugin accepts / host dials or the reverse, real stream pumps; all schedules with <= 2 reversals"},
           thorough={"max_reversals": 3, "max_wall_s": 1500, "bound": "as quick with <= 3 reversals"}),
+      run("two-dials", "harnessC07twoDials", ["routed"], dpor=True, files=["prims.go", "c07.go"],
+          quick={"max_reversals": 2, "race": True, "bound": "two symbolic IDs accepted on the plugin and then dialled from the host by two goroutines at once (two connections being set up in one process), each dialled connection then used once; all schedules with <= 2 reversals; happens-before race detection over what go-plugin touches while dialling (append into a shared backing array is modelled)"}),
       run("retry-after-timeout", "harnessC09grpc", ["history-done", "fresh-pair", "retry-of-timed-out-id"],
           quick={"params": {"as_c07": 1}, "bound": "C09's history run read as a routing claim: <= 2 dials nobody accepts (they time out), optionally an accept nobody dials, then accept - symbolic gap <= 4 s - dial on a fresh ID or on the ID whose dial timed out; canonical schedule, symbolic clock"})],
      [GRPCSEAM, GHOSTFS, "broker stream = FIFO pair; Send copies the message"], ["grpc", "net.Listen", "generated broker stream"],
@@ -316,6 +318,8 @@ prop("C20", ["prims.go", "c20.go"],
       run("serve-shutdown", "harnessC20serveShutdown", ["host-side", "plugin-side", "after-shutdown", "shut-down"], dpor=True, files=WORLD,
           quick={"max_reversals": 1, "race": True, "bound": "host x plugin composed over gRPC, multiplexing on and off: a brokered server being started (AcceptAndServe on the host broker, or on the plugin broker inside the plugin) while the client is killed, and on the host another AcceptAndServe after the shutdown returned; all schedules with <= 1 reversal, happens-before race detection"},
           thorough={"max_reversals": 2, "race": True, "max_wall_s": 1500, "bound": "as quick with <= 2 reversals (50 535 schedules, 91 s when measured)"}),
+      run("two-dials", "harnessC07twoDials", ["routed"], dpor=True, files=["prims.go", "c07.go"],
+          quick={"max_reversals": 2, "race": True, "bound": "two symbolic IDs accepted on the plugin and then dialled from the host by two goroutines at once (two connections being set up in one process), each dialled connection then used once; all schedules with <= 2 reversals; happens-before race detection over what go-plugin touches while dialling (append into a shared backing array is modelled)"}),
       run("mux-listener-close", "harnessC20muxListenerClose", ["host-side", "plugin-side", "closed-twice"], dpor=True, files=["prims.go", "c08.go"],
           quick={"max_reversals": 2, "race": True, "bound": "a multiplexed brokered listener (host side or plugin side) closed from two goroutines at once and once more afterwards; all schedules with <= 2 reversals, happens-before race detection"}),
       run("accept-close", "harnessC20brokerClose", ["host-side", "plugin-side", "both-returned"], dpor=True, files=["prims.go", "c07.go"],
